@@ -1,6 +1,7 @@
 package main
 
 import (
+	"sort"
 	"fmt"
 	"go/token"
 	"go/types"
@@ -987,11 +988,55 @@ func calleeName(c *ssa.CallCommon) string {
 			}
 		}
 	}
+	// a local function variable assigned from known functions only (logFn := logging.Debug; if … { logFn = logging.Warn }):
+	// named by the sorted set of its possible targets, which is stable under edits elsewhere in the function
+	if ts := phiTargets(c.Value, map[ssa.Value]bool{}); len(ts) > 0 {
+		sort.Strings(ts)
+		return "dynamic:oneof(" + strings.Join(ts, "|") + ")"
+	}
 	return "dynamic:" + c.Value.Name()
+}
+
+// phiTargets: the static functions a value can be when it is a function constant or a phi of such values; nil otherwise.
+func phiTargets(v ssa.Value, seen map[ssa.Value]bool) []string {
+	switch x := v.(type) {
+	case *ssa.Function:
+		return []string{x.String()}
+	case *ssa.Phi:
+		if seen[x] {
+			return []string{}
+		}
+		seen[x] = true
+		var out []string
+		have := map[string]bool{}
+		for _, e := range x.Edges {
+			ts := phiTargets(e, seen)
+			if ts == nil {
+				return nil
+			}
+			for _, t := range ts {
+				if !have[t] {
+					have[t] = true
+					out = append(out, t)
+				}
+			}
+		}
+		return out
+	}
+	return nil
 }
 
 // effectFree: callees declared to have no effect on modelled state (loggers, metrics, locks, formatting).
 func (g *Gen) effectFree(name string) bool {
+	if strings.HasPrefix(name, "dynamic:oneof(") && strings.HasSuffix(name, ")") {
+		// every possible target is effect-free
+		for _, t := range strings.Split(strings.TrimSuffix(strings.TrimPrefix(name, "dynamic:oneof("), ")"), "|") {
+			if !g.effectFree(t) {
+				return false
+			}
+		}
+		return true
+	}
 	for _, p := range builtinEffectFree {
 		if matchPattern(p, name) {
 			return true
